@@ -67,8 +67,8 @@ class Invariance(SxContract):
             for i in range(n):
                 for k in range(K):
                     P[i, k] = sx.Sx(dag.const(1 if k == (i % K if self.what == "onehot" else (i // 2) % K) else 0))
-        elif self.what in ("empty", "empty2"):
-            extra = 1 if self.what == "empty" else 2       # one / two empty clusters (two are identical: zero distance)
+        elif self.what in ("empty", "empty2", "empty-perm"):
+            extra = 2 if self.what == "empty2" else 1      # one / two empty clusters (two are identical: zero distance)
             P0 = simplex_reduced(ctx, n, K, eps=eps)
             P = np.empty((n, K + extra), dtype=object)
             P[:, :K] = P0
@@ -100,7 +100,7 @@ class Invariance(SxContract):
                 idx = list(range(n))
                 idx[i], idx[i + 1] = idx[i + 1], idx[i]
                 out["perm"].append((idx, self._eval(P[idx], None if A is None else A[idx][:, idx])))
-        if self.what == "perm-cols":
+        if self.what in ("perm-cols", "empty-perm"):      # empty-perm: relabelling when one of the clusters is empty
             for k in range(K - 1):
                 idx = list(range(K))
                 idx[k], idx[k + 1] = idx[k + 1], idx[k]
@@ -117,7 +117,7 @@ class Invariance(SxContract):
                 for i in range(n):
                     for k in range(K):
                         yield f"grad equivariant under row swap {idx} [{i},{k}]", prove.eq(g[i, k], g0[idx[i], k], smooth_only=True)
-        elif self.what == "perm-cols":
+        elif self.what in ("perm-cols", "empty-perm"):
             for idx, (s, g) in out["perm"]:
                 yield f"score invariant under cluster swap {idx}", prove.eq(s, s0)
                 for i in range(n):
